@@ -696,3 +696,246 @@ Proof.
     + eapply decl_count; eauto.
     + eapply decl_inner; eauto.
 Qed.
+
+(* ================================================================== *)
+(* 7. indexing succeeds on well-formed queries with shallow outputs    *)
+(* ================================================================== *)
+Lemma NoDup_app3_l {A} (a b c : list A) : NoDup (a ++ b ++ c) -> NoDup (a ++ b).
+Proof. rewrite app_assoc. apply NoDup_app_l. Qed.
+
+Lemma wrap_lists_T s : forall stack a, (adepth a + List.length stack <= 30)%nat ->
+  exists a', wrap_lists (T s a) stack = Ok (T s a') /\ adepth a' = (adepth a + List.length stack)%nat.
+Proof.
+  induction stack as [|b r IH]; intros a Hd; cbn [wrap_lists List.length] in *.
+  - exists a. split; [reflexivity|lia].
+  - rewrite ty_list_T by lia. destruct (Nat.leb_spec 30 (adepth a)); [lia|]. cbn [bind].
+    destruct (IH (AList b a)) as (a' & E & D); [cbn [adepth]; lia|].
+    exists a'. split; [exact E|]. cbn [adepth] in D. lia.
+Qed.
+
+Lemma get_output_type_ok v ft opt stack :
+  wf_ty ft = true -> (ty_depth ft + List.length stack <= 30)%nat ->
+  exists t, get_output_type v ft opt stack = Ok t /\ wf_ty t = true.
+Proof.
+  intros W Hd. destruct (wf_view' _ W) as (s & a & Ha & ->). rewrite ty_depth_T in Hd by assumption.
+  unfold get_output_type. destruct (memN v opt).
+  - rewrite with_nullability_T.
+    assert (D : adepth (awith_null a true) = adepth a) by (destruct a; reflexivity).
+    destruct (wrap_lists_T s stack (awith_null a true)) as (a' & E & D'); [lia|].
+    exists (T s a'). split; [exact E|]. apply wf_T. lia.
+  - destruct (wrap_lists_T s stack a) as (a' & E & D'); [lia|].
+    exists (T s a'). split; [exact E|]. apply wf_T. lia.
+Qed.
+
+Lemma count_type_wf : wf_ty count_type = true /\ ty_depth count_type = O.
+Proof. unfold count_type. pose proof (ty_named_wf "Int" false) as H. tauto. Qed.
+
+Lemma var_checks_ok vars vids feids avail v :
+  vertex_wf vars vids feids avail v = true -> check_filters_vars vars (v_filters v) = None.
+Proof.
+  unfold vertex_wf. induction (v_filters v) as [|f r IH]; cbn [forallb check_filters_vars]; [reflexivity|].
+  intros H. apply andb_prop in H. destruct H as (Hf & Hr). rewrite (IH Hr).
+  unfold arg_wf in Hf. apply andb_prop in Hf. destruct Hf as (Hv & _).
+  unfold check_filter_var, var_ok in *. destruct (vf_arg f) as [[r0|x t]|]; try reflexivity.
+  destruct (lookup_str x vars) as [t0|]; [|discriminate]. now rewrite Hv.
+Qed.
+
+Lemma add_vertices_ok root vars vs : forall vids,
+  (forall v, In v vs -> check_filters_vars vars (v_filters v) = None) ->
+  NoDup (map fst vids ++ map v_vid vs) ->
+  exists vids', add_vertices root vars vs vids = inr vids'.
+Proof.
+  induction vs as [|v r IH]; intros vids Hc Hn; cbn [add_vertices]; [eauto|].
+  assert (Hk : Indexed.has_key_N (v_vid v) vids = false).
+  { apply ix_has_key_N_false. intros Hin. apply (NoDup_app_disj _ _ _ Hn Hin). now left. }
+  rewrite Hk, (Hc v (or_introl eq_refl)). apply IH.
+  - intros v' Hv'. apply Hc. now right.
+  - rewrite map_app. cbn [map fst]. rewrite <- app_assoc. exact Hn.
+Qed.
+
+Lemma lookup_N_own (root : N) vs v : In v (map v_vid vs) ->
+  lookup_N v (map (fun x => (v_vid x, root)) vs) = Some root.
+Proof.
+  induction vs as [|x r IH]; cbn [map In lookup_N]; [intros []|].
+  destruct (N.eqb_spec v (v_vid x)) as [->|Hne]; [reflexivity|]. intros [E|Hin]; [congruence|auto].
+Qed.
+
+Lemma owner_check_ok root vids v a b : lookup_N v vids = Some root -> owner_check root vids v a b = None.
+Proof. unfold owner_check. intros ->. now rewrite N.eqb_refl. Qed.
+
+Lemma add_outputs_ok root opt stack outs vids : forall acc,
+  (forall n cf, In (n, cf) outs ->
+     lookup_N (cf_vid cf) vids = Some root /\
+     exists t, get_output_type (cf_vid cf) (cf_ty cf) opt stack = Ok t) ->
+  NoDup (map fst acc ++ map fst outs) ->
+  exists acc', add_outputs root opt stack outs vids acc = Ok (inr acc').
+Proof.
+  induction outs as [|[name cf] r IH]; intros acc Ho Hn; cbn [add_outputs]; [eauto|].
+  destruct (Ho name cf (or_introl eq_refl)) as (Hl & t & Ht).
+  rewrite (owner_check_ok _ _ _ _ _ Hl), Ht. cbn [bind].
+  assert (Hk : has_key_str name acc = false).
+  { apply ix_has_key_str_false. intros Hin. apply (NoDup_app_disj _ _ _ Hn Hin). now left. }
+  rewrite Hk. apply IH.
+  - intros n cf' Hin. apply (Ho n cf'). now right.
+  - rewrite map_app. cbn [map fst]. rewrite <- app_assoc. exact Hn.
+Qed.
+
+Lemma add_edges_ok root es vids : forall eids,
+  (forall e, In e es -> e_to e = e_eid e + 1 /\ lookup_N (e_from e) vids = Some root
+                        /\ lookup_N (e_to e) vids = Some root) ->
+  NoDup (map fst eids ++ map e_eid es) ->
+  exists eids', add_edges root es vids eids = inr eids'.
+Proof.
+  induction es as [|e r IH]; intros eids He Hn; cbn [add_edges]; [eauto|].
+  destruct (He e (or_introl eq_refl)) as (E1 & E2 & E3).
+  rewrite E1, N.eqb_refl. cbn [negb].
+  rewrite (owner_check_ok _ _ _ _ _ E2). rewrite <- E1, (owner_check_ok _ _ _ _ _ E3).
+  assert (Hk : Indexed.has_key_N (e_eid e) eids = false).
+  { apply ix_has_key_N_false. intros Hin. apply (NoDup_app_disj _ _ _ Hn Hin). now left. }
+  rewrite Hk. apply IH.
+  - intros e' Hin. apply He. now right.
+  - rewrite map_app. cbn [map fst]. rewrite <- app_assoc. exact Hn.
+Qed.
+
+Lemma add_fsouts_ok h opt stack names : forall acc,
+  (names = [] \/ exists t, get_output_type (fo_from h) count_type opt stack = Ok t) ->
+  NoDup (map fst acc ++ names) ->
+  exists acc', add_fsouts h opt stack names acc = Ok (inr acc').
+Proof.
+  induction names as [|name r IH]; intros acc Ht Hn; cbn [add_fsouts]; [eauto|].
+  destruct Ht as [Ht|(t & Ht)]; [discriminate|]. rewrite Ht. cbn [bind].
+  assert (Hk : has_key_str name acc = false).
+  { apply ix_has_key_str_false. intros Hin. apply (NoDup_app_disj _ _ _ Hn Hin). now left. }
+  rewrite Hk. apply IH; [right; eauto|].
+  rewrite map_app. cbn [map fst]. rewrite <- app_assoc. exact Hn.
+Qed.
+
+Lemma fold_loop_ok {S} (body : fold_hdr -> raw_comp -> S -> ires S)
+      (Pf : raw_fold -> Prop) (I : list raw_fold -> S -> Prop) :
+  (forall h sub r st, Pf (RFold h sub) -> I (RFold h sub :: r) st ->
+                      exists st1, body h sub st = Ok (inr st1) /\ I r st1) ->
+  forall fs, Forall Pf fs -> forall st, I fs st -> exists st', fold_loop body fs st = Ok (inr st').
+Proof.
+  intros Hstep fs HF. induction HF as [|[h sub] r Hp _ IH]; intros st Hi; cbn [fold_loop]; [eauto|].
+  destruct (Hstep _ _ _ _ Hp Hi) as (st1 & Hb & Hi1). rewrite Hb. cbn [bind]. apply IH. exact Hi1.
+Qed.
+
+Lemma shallow_comp_inv d root vs es fs outs :
+  shallow_comp d (RComp root vs es fs outs) = true ->
+  (forall o, In o outs -> wf_ty (cf_ty (snd o)) = true /\ (ty_depth (cf_ty (snd o)) + d <= 30)%nat) /\
+  (forall h sub, In (RFold h sub) fs -> (fo_fsout h = [] \/ (d <= 30)%nat) /\ shallow_comp (S d) sub = true).
+Proof.
+  cbn [shallow_comp]. intros H. apply andb_prop in H. destruct H as (H1 & H2).
+  rewrite forallb_forall in H1, H2. split.
+  - intros o Ho. specialize (H1 _ Ho). apply andb_prop in H1. destruct H1 as (W & D).
+    apply Nat.leb_le in D. auto.
+  - intros h sub Hin. specialize (H2 _ Hin). cbn beta iota in H2. apply andb_prop in H2. destruct H2 as (C & Sh).
+    split; [|exact Sh]. destruct (fo_fsout h); [now left|right; now apply Nat.leb_le].
+Qed.
+
+Lemma add_ok vars : forall c avail stack st,
+  wf_comp vars avail c = true -> shallow_comp (List.length stack) c = true ->
+  NoDup (map fst (st_vids st) ++ all_vids c) ->
+  NoDup (map fst (st_eids st) ++ all_eids c) ->
+  NoDup (map fst (st_outs st) ++ all_outs c) ->
+  exists st', add_data_from_component vars c stack st = Ok (inr st').
+Proof.
+  induction c as [root vs es fs outs IHfs] using raw_comp_ind'. intros avail stack st Hwf Hsh Hnv Hne Hno.
+  pose proof (wf_comp_inv _ _ _ _ _ _ _ Hwf) as (Hse & Hsf & Hroot & Hent & Hedges & Hverts & Houts & Hfolds).
+  destruct (shallow_comp_inv _ _ _ _ _ _ Hsh) as (Hsho & Hshf).
+  rewrite all_vids_eq in Hnv. rewrite all_eids_eq in Hne. rewrite all_outs_eq in Hno.
+  cbn [add_data_from_component].
+  (* -1 *)
+  assert (Hfv : exists rv, find_vertex vs root = Some rv).
+  { clear - Hroot. unfold comp_vids in Hroot. induction vs as [|v r IH]; [destruct Hroot|].
+    cbn [find_vertex]. destruct (N.eqb_spec (v_vid v) root); [eauto|].
+    apply IH. destruct Hroot as [E|H]; [congruence|exact H]. }
+  destruct Hfv as (rv & ->). cbn [negb].
+  (* vertices *)
+  destruct (add_vertices_ok root vars vs (st_vids st)) as (vids & Ev).
+  { intros v Hv. eapply var_checks_ok. apply Hverts. exact Hv. }
+  { eapply NoDup_app3_l. exact Hnv. }
+  rewrite Ev. pose proof (add_vertices_shape _ _ _ _ _ Ev) as Evs.
+  assert (Hown : forall v, In v (comp_vids vs) -> lookup_N v vids = Some root).
+  { intros v Hv. rewrite Evs, lookup_N_app.
+    assert (Hnone : lookup_N v (st_vids st) = None).
+    { apply lookup_N_none. intros Hin. apply (NoDup_app_disj _ _ v Hnv Hin). apply in_or_app. now left. }
+    rewrite Hnone. now apply lookup_N_own. }
+  set (opt := optional_vertices es).
+  (* outputs *)
+  destruct (add_outputs_ok root opt stack outs vids (st_outs st)) as (outs1 & Eo).
+  { intros n cf Hin. split; [apply Hown; exact (Houts _ Hin)|].
+    destruct (Hsho _ Hin) as (W & D). cbn [snd] in W, D.
+    destruct (get_output_type_ok (cf_vid cf) (cf_ty cf) opt stack W D) as (t & Ht & _). eauto. }
+  { eapply NoDup_app3_l. exact Hno. }
+  rewrite Eo. cbn [bind].
+  destruct (add_outputs_shape _ _ _ _ _ _ _ Eo) as (no0 & Eos & Kno0 & _).
+  (* edges *)
+  destruct (add_edges_ok root es vids (st_eids st)) as (eids1 & Ee).
+  { intros e He. destruct (edge_wf_inv _ _ (Hedges _ He)) as (E1 & E2 & E3 & _). auto. }
+  { eapply NoDup_app3_l. exact Hne. }
+  rewrite Ee. pose proof (add_edges_shape _ _ _ _ _ Ee) as Ees.
+  (* folds *)
+  apply (fold_loop_ok _
+           (fun f => In f fs /\
+              forall avail stack st,
+                wf_comp vars avail (rf_comp f) = true -> shallow_comp (List.length stack) (rf_comp f) = true ->
+                NoDup (map fst (st_vids st) ++ all_vids (rf_comp f)) ->
+                NoDup (map fst (st_eids st) ++ all_eids (rf_comp f)) ->
+                NoDup (map fst (st_outs st) ++ all_outs (rf_comp f)) ->
+                exists st', add_data_from_component vars (rf_comp f) stack st = Ok (inr st'))
+           (fun l s =>
+              NoDup (map fst (st_vids s) ++ flat_map sub_vids l) /\
+              NoDup (map fst (st_eids s) ++ flat_map sub_eids l) /\
+              NoDup (map fst (st_outs s) ++ flat_map sub_outs l) /\
+              forall v, In v (comp_vids vs) -> lookup_N v (st_vids s) = Some root)).
+  - intros h sub r s (Hin & IH) (Iv & Ie & Io & Il). cbn [rf_comp flat_map sub_vids sub_eids sub_outs] in *.
+    destruct (Hfolds _ _ Hin) as (Hh & Hiv & _ & Hwf').
+    destruct (fold_hdr_wf_inv _ _ _ _ _ _ Hh) as (F1 & F2 & _ & F4 & _).
+    destruct (Hshf _ _ Hin) as (Hc & Hsh').
+    (* header *)
+    assert (Hhdr : exists s2, fold_header root opt stack h sub s = Ok (inr s2)).
+    { unfold fold_header. rewrite F1, N.eqb_refl. cbn [negb].
+      rewrite (owner_check_ok _ _ _ _ _ (Il _ F2)). rewrite <- F1, F4, N.eqb_refl. cbn [negb].
+      assert (Hk : Indexed.has_key_N (fo_eid h) (st_eids s) = false).
+      { apply ix_has_key_N_false. intros Hk. apply (NoDup_app_disj _ _ _ Ie Hk). now left. }
+      rewrite Hk.
+      destruct (add_fsouts_ok h opt stack (fo_fsout h) (st_outs s)) as (o' & Eo').
+      { destruct Hc as [Hc|Hc]; [now left|right].
+        destruct count_type_wf as (W & D).
+        destruct (get_output_type_ok (fo_from h) count_type opt stack W) as (t & Ht & _); [rewrite D; exact Hc|eauto]. }
+      { eapply NoDup_app3_l. rewrite <- app_assoc in Io. exact Io. }
+      rewrite Eo'. cbn [bind]. eauto. }
+    destruct Hhdr as (s2 & Hs2). rewrite Hs2. cbn [bind].
+    destruct (fold_header_shape _ _ _ _ _ _ _ Hs2) as (G1 & G2 & (nof & G3 & G4 & _)).
+    destruct (IH (fo_imported h ++ avail) (memN (fo_from h) opt :: stack) s2) as (s1 & Hs1).
+    + exact Hwf'. + exact Hsh'.
+    + rewrite G1. eapply NoDup_app3_l. exact Iv.
+    + rewrite G2, map_app. cbn [map fst]. rewrite <- app_assoc. cbn [app].
+      change (fo_eid h :: all_eids sub ++ flat_map sub_eids r) with ((fo_eid h :: all_eids sub) ++ flat_map sub_eids r) in Ie.
+      eapply NoDup_app3_l. exact Ie.
+    + rewrite G3, map_app, G4, <- app_assoc. rewrite <- app_assoc in Io. rewrite (app_assoc (fo_fsout h)) in Io.
+      rewrite app_assoc. rewrite app_assoc in Io. eapply NoDup_app_l. exact Io.
+    + exists s1. split; [exact Hs1|].
+      destruct (add_shape _ _ _ _ _ Hs1) as (nv & ne & no & A1 & K1 & A2 & K2 & A3 & K3 & _).
+      repeat split.
+      * rewrite A1, G1, map_app, K1, <- app_assoc. exact Iv.
+      * rewrite A2, G2, !map_app, K2. cbn [map fst]. rewrite <- !app_assoc. cbn [app]. exact Ie.
+      * rewrite A3, G3, !map_app, K3, G4, <- !app_assoc. rewrite <- app_assoc in Io. exact Io.
+      * intros v Hv. rewrite A1, G1, lookup_N_app, (Il _ Hv). reflexivity.
+  - apply Forall_forall. intros [h sub] Hin. split; [exact Hin|].
+    rewrite Forall_forall in IHfs. exact (IHfs _ Hin).
+  - cbn [st_vids st_eids st_outs]. repeat split.
+    + rewrite Evs, map_app, map_map. cbn [fst]. rewrite <- app_assoc. exact Hnv.
+    + rewrite Ees, map_app, map_map. cbn [fst]. rewrite <- app_assoc. exact Hne.
+    + rewrite Eos, map_app, Kno0, <- app_assoc. exact Hno.
+    + exact Hown.
+Qed.
+
+Theorem indexed_ok q : wf_ir q = true -> shallow_outputs q = true ->
+  exists ix, index_query q = Ok (inr ix).
+Proof.
+  intros H Hs. destruct (wf_ir_inv q H) as (Hwf & Hnv & Hne & Hno & _).
+  destruct (add_ok (rq_vars q) (rq_comp q) [] [] (mkSt [] [] []) Hwf Hs) as (st' & E); try assumption.
+  unfold index_query. rewrite E. cbn [bind]. eauto.
+Qed.
